@@ -25,5 +25,12 @@ for s in seed1 seed2; do
   fi
   k=$((k+1))
 done
+if [ -d "$wt/unchanged" ]; then
+  u=/verif/seeded/UNCHANGED/$id; mkdir -p "$u"
+  for f in "$wt"/unchanged/*; do
+    b=$(basename "$f")
+    case "$b" in go.mod|go.sum) ;; *.go) cp "$f" "$u/$b.txt" ;; *) [ -f "$f" ] && cp "$f" "$u/$b" ;; esac
+  done
+fi
 git -C /repo worktree remove --force "$wt"
 rm -f "$wt"-* 2>/dev/null || true
